@@ -1,6 +1,7 @@
 import PydapModel.Sexp
 import PydapModel.Dmr
 import PydapModel.DmrSpec
+import PydapModel.DmrServer
 import PydapModel.Dap4Order
 import Driver.Dmr
 namespace Pydap.Driver
@@ -51,6 +52,25 @@ def sexpToSpec? : Nat → List Sexp → Option Spec
     | list (atom "attr" :: _) => pure (.attr (← sexpToSAttr? x) rest)
     | _ => none
 
+/-- `(var <name> <kind> <dtypeName> ((<fq> <extent>) ...))` | `(group <name> ((<dim> <size>) ...) (<kid> ...))` -/
+def sexpToSrv? : Nat → List Sexp → Option SrvTree
+  | 0, _ => none
+  | _ + 1, [] => some .nil
+  | f + 1, x :: rest => do
+    let rest ← sexpToSrv? f rest
+    match x with
+    | list [atom "var", n, atom k, dt, list dims] =>
+      let dims ← dims.mapM fun d => match d with
+        | list [fq, sz] => do pure (← asStr? fq, ← asInt? sz)
+        | _ => none
+      pure (.var ⟨← asStr? n, k.toList.headD ' ', ← asStr? dt, dims⟩ rest)
+    | list [atom "group", n, list dims, list kids] =>
+      let dims ← dims.mapM fun d => match d with
+        | list [dn, sz] => do pure (← asStr? dn, ← asNat? sz)
+        | _ => none
+      pure (.group (← asStr? n) dims (← sexpToSrv? f kids) rest)
+    | _ => none
+
 partial def xnodeStr : XNode → String
   | .mk tag attrs text kids =>
     "(n " ++ strToHex tag ++ " (" ++ " ".intercalate (attrs.map fun (k, v) => "(" ++ strToHex k ++ " " ++ strToHex v ++ ")")
@@ -87,6 +107,11 @@ def handleDmrSpec : List Sexp → Option String
     match parseVars root, datasetWalk root, decodeOrder root with
     | .ok a, .ok b, .ok c => pure ("(" ++ recsStr a ++ " " ++ recsStr b ++ " " ++ recsStr c ++ ")")
     | _, _, _ => pure "(err)"
+  | [atom "dmr-srv-tree", name, list dims, list kids] => do
+    let dims ← dims.mapM fun d => match d with
+      | list [dn, sz] => do pure (← asStr? dn, ← asNat? sz)
+      | _ => none
+    pure (xnodeStr (renderServer (← asStr? name) dims (← sexpToSrv? 4096 kids)))
   | [atom "dmr-order", x] => do
     let x ← sexpToXNode? 64 x
     match decodeOrder x with
